@@ -135,6 +135,16 @@ def spec(case, ms, scalar):
     """-> exact integer result (list of lists); raises SpecError when undefined"""
     op, g = case['op'], case['args']
     a = ms[0] if ms else None
+    if op == 'chain':
+        n1 = g['n1']
+        sub = dict(op=g['op1']['op'], args=g['op1']['args'], ops=case['ops'][:n1])
+        first = spec(sub, ms[:n1], scalar)
+        b1, _ = intermediate_attrs(case)
+        first = [[x % (1 << b1) for x in row] for row in first]     # what the intermediate Matrix holds
+        op2 = g['op2']
+        if op2 == 'pow2':
+            return spec(dict(op='pow', args={'n': 2}), [first], None)
+        return spec(dict(op=op2, args={}), [first, ms[n1]], None)
     if op in ('copy', 'setbits'):
         return [row[:] for row in a]
     if op in ('add', 'iadd', 'sub', 'isub', 'mul', 'imul', 'multiply'):
@@ -264,11 +274,42 @@ def spec(case, ms, scalar):
     raise AssertionError(op)
 
 
+def intermediate_attrs(case):
+    """(bits, max_bits) the documentation implies for op1(A...) of a chain: data movement keeps the element
+    width (stacking: the max) and the max_bits (stacking: the max) of its source"""
+    g = case['args']
+    ops1 = case['ops'][:g['n1']]
+    if g['op1']['op'] in ('hstack', 'vstack', 'concatenate'):
+        return max(capb(o[2], o[3]) for o in ops1), max(o[3] for o in ops1)
+    return capb(ops1[0][2], ops1[0][3]), ops1[0][3]
+
+
 def declared_bits(case):
-    """documented width rule of + * @ (None for other ops) and the max_bits it is capped by"""
+    """documented width rule of + * @ **2 (None for other ops) and the max_bits it is capped by"""
     op, ops = case['op'], case['ops']
     mb = ops[0][3]
     eb = [capb(o[2], o[3]) for o in ops]     # element width of each operand as constructed
+    if op == 'chain':
+        g = case['args']
+        b1, mb1 = intermediate_attrs(case)
+        try:
+            r1, c1 = shape(spec(dict(op=g['op1']['op'], args=g['op1']['args'], ops=ops[:g['n1']]),
+                                [[[0] * o[1] for _ in range(o[0])] for o in ops[:g['n1']]], 0))
+        except SpecError:
+            return None, mb1
+        op2 = g['op2']
+        if op2 == 'pow2':
+            return (r1 * r1 * (b1 + b1) if r1 == c1 else None), mb1
+        ob = ops[g['n1']]
+        b2 = capb(ob[2], ob[3])
+        if op2 == 'add':
+            return max(b1, b2) + 1, mb1
+        if op2 == 'mul':
+            return b1 + b2, mb1
+        matmul_branch = op2 == 'matmul' or (op2 == 'dot' and 1 not in (r1, c1) and 1 not in (ob[0], ob[1]))
+        if matmul_branch:
+            return c1 * ob[0] * (b1 + b2), mb1
+        return None, mb1
     if op in ('add', 'iadd'):
         return max(eb[0], eb[1]) + 1, mb
     if op in ('mul', 'imul', 'multiply'):
@@ -277,13 +318,60 @@ def declared_bits(case):
         return eb[0] + case['args']['ws'], mb
     if op in ('matmul', 'imatmul'):
         return ops[0][1] * ops[1][0] * (eb[0] + eb[1]), mb
+    if op in ('pow', 'ipow') and case['args']['n'] == 2 and ops[0][0] == ops[0][1]:
+        return ops[0][0] * ops[0][0] * 2 * eb[0], mb
     return None, mb
+
+
+def spec_max_bits(case):
+    """max_bits the result Matrix must carry: that of the operand it is derived from (left operand of an
+    arithmetic operator), the largest one for stacking, the constructor default 64 for axis reductions"""
+    op, ops, g = case['op'], case['ops'], case['args']
+    if op == 'chain':
+        _, mb1 = intermediate_attrs(case)
+        if g['op2'] == 'dot':
+            return mb1_dot(case, mb1)
+        return mb1
+    if op in ('hstack', 'vstack', 'concatenate'):
+        return max(o[3] for o in ops)
+    if op in ('sum', 'min', 'max', 'argmax'):
+        return 64
+    if op == 'dot' and ops[0][:2] == (1, 1) and ops[1][:2] != (1, 1):
+        return ops[1][3]          # scalar . Matrix: the Matrix operand
+    return ops[0][3]
+
+
+def mb1_dot(case, mb1):
+    g, ops = case['args'], case['ops']
+    r1, c1 = shape(spec(dict(op=g['op1']['op'], args=g['op1']['args'], ops=ops[:g['n1']]),
+                        [[[0] * o[1] for _ in range(o[0])] for o in ops[:g['n1']]], 0))
+    ob = ops[g['n1']]
+    if (r1, c1) == (1, 1) and ob[:2] != (1, 1):
+        return ob[3]
+    return mb1
 
 
 # ----------------------------------------------------------------------------- build with the real class
 def build(case, mats, scalar_wire):
     op, g = case['op'], case['args']
     a = mats[0]
+    if op == 'chain':
+        n1 = g['n1']
+        first = build(dict(op=g['op1']['op'], args=g['op1']['args']), mats[:n1], scalar_wire)
+        if not isinstance(first, M.Matrix):
+            raise TypeError('first operation of a chain did not return a Matrix')
+        op2 = g['op2']
+        if op2 == 'add':
+            return first + mats[n1]
+        if op2 == 'mul':
+            return first * mats[n1]
+        if op2 == 'matmul':
+            return first @ mats[n1]
+        if op2 == 'pow2':
+            return first ** 2
+        if op2 == 'dot':
+            return M.dot(first, mats[n1])
+        raise AssertionError(op2)
     if op == 'copy':
         return a.copy()
     if op == 'setbits':
@@ -355,13 +443,30 @@ def build(case, mats, scalar_wire):
 
 
 def coq_expr(case):
-    """Gallina term of type option (Z * mat * Z) over `v : list Z` (operand wire values, then scalar)"""
-    op, g, ops = case['op'], case['args'], case['ops']
+    """Gallina term of type option (Z * mat * Z * Z) over `v : list Z` (operand wire values, then scalar)"""
+    ops = case['ops']
     A = ['(mx_in %d %d %d %d (nth %d v 0))' % (r, c, b, mb, k) for k, (r, c, b, mb) in enumerate(ops)]
     S = '(nth %d v 0)' % len(ops)
-    some = lambda e: '(Some (out %s))' % e
-    opt = lambda e: '(outo %s)' % e
+    return '(outxo %s)' % coq_term(case, A, S)
+
+
+def coq_term(case, A, S):
+    """Gallina term of type option Mx for `case` applied to the operand terms A (scalar S)"""
+    op, g = case['op'], case['args']
+    some = lambda e: '(Some %s)' % e
+    opt = lambda e: e
     a = A[0]
+    if op == 'chain':
+        n1 = g['n1']
+        t1 = coq_term(dict(op=g['op1']['op'], args=g['op1']['args']), A[:n1], S)
+        op2 = g['op2']
+        if op2 == 'pow2':
+            f = '(fun m => Some (mpow m 2))'
+        elif op2 == 'dot':
+            f = '(fun m => mdot m %s)' % A[n1]
+        else:
+            f = '(fun m => Some (m%s m %s))' % (op2, A[n1])
+        return '(obind %s %s)' % (t1, f)
     if op == 'copy':
         return some('(mcopy %s)' % a)
     if op == 'setbits':
@@ -535,6 +640,56 @@ def gen_cases(ctx, tier):
         add('add', [(2, 2, b0, mb), (2, 2, b1, 64)], 'cap')
         add('mul', [(2, 2, b0, mb), (2, 2, b1, 64)], 'cap')
 
+    # --- chained operations op2(op1(A...), B): the attributes op1 gives its result (bits, max_bits) decide
+    #     what op2 computes; max_bits is large enough for op2's documented width, values include all-max
+    def chain_firsts(r, c, b, mb):
+        A = (r, c, b, mb)
+        count = r * c
+        yield 'copy', {}, [A], (r, c)
+        yield 'transpose', {}, [A], (c, r)
+        yield 'reversed', {}, [A], (r, c)
+        for order in 'CF':
+            yield 'flatten', {'order': order, 'explicit': True}, [A], (1, count)
+            yield 'reshape', {'nr': c, 'nc': r, 'order': order, 'form': 'two'}, [A], (c, r)
+            yield 'reshape', {'nr': -1, 'nc': count, 'order': order, 'form': 'tuple'}, [A], (1, count)
+        if r > 1:
+            yield 'getitem', {'key': slice(0, r - 1)}, [A], (r - 1, c)
+            yield 'getitem', {'key': (slice(1, None), slice(None))}, [A], (r - 1, c)
+        if c > 1:
+            yield 'getitem', {'key': (slice(None), slice(0, c - 1))}, [A], (r, c - 1)
+        B2 = (r, max(1, c - 1), rng.choice(WIDTHS[:5]), rng.choice([mb, 64]))
+        yield 'hstack', {}, [A, B2], (r, c + B2[1])
+        yield 'concatenate', {'axis': 0}, [A, B2], (r, c + B2[1])
+        B3 = (max(1, r - 1), c, rng.choice(WIDTHS[:5]), rng.choice([mb, 64]))
+        yield 'vstack', {}, [A, B3], (r + B3[0], c)
+        yield 'hstack', {}, [A], (r, c)
+        top = (1 << capb(b, mb)) - 1
+        yield 'put', {'ind': [0, -1], 'v': [top, max(top - 1, 0)], 'mode': 'raise', 'vmat': False}, [A], (r, c)
+        yield 'put', {'ind': [count], 'v': None, 'mode': 'wrap', 'vmat': True}, [A, (1, 2, b, mb)], (r, c)
+        yield 'setitem', {'key': (0, 0), 'scalar': False}, [A, (1, 1, b, mb)], (r, c)
+        yield 'setbits', {'b': capb(b, mb)}, [A], (r, c)
+
+    chain_shapes = [(2, 2), (2, 3), (1, 3), (3, 1)] if tier == 'quick' else [(2, 2), (2, 3), (3, 2), (1, 3), (3, 1), (1, 4)]
+    for (r, c) in chain_shapes:
+        b = rng.choice([2, 3, 4, 5])
+        mb = rng.choice([64, 64, 40])
+        for op1, args1, ops1, (r1, c1) in chain_firsts(r, c, b, mb):
+            b2 = rng.choice([1, 2, 3, 4, 5])
+            seconds = [('add', (r1, c1)), ('mul', (r1, c1)), ('matmul', (c1, rng.randint(1, 2))), ('dot', (c1, 2)),
+                       ('dot', (r1, c1)), ('pow2', None)]
+            if tier == 'quick':
+                seconds = [x for x in seconds if rng.random() < 0.7 or x[0] in ('add', 'matmul')]
+            for op2, shp in seconds:
+                if op2 == 'pow2':
+                    if r1 != c1 or r1 > 2:
+                        continue
+                    add('chain', ops1, 'chain', op1={'op': op1, 'args': args1}, n1=len(ops1), op2=op2)
+                    continue
+                if op2 in ('matmul', 'dot') and c1 * shp[0] * (capb(b, mb) + b2) > 64 and r1 * c1 > 6:
+                    continue
+                add('chain', ops1 + [(shp[0], shp[1], b2, 64)], 'chain', op1={'op': op1, 'args': args1},
+                    n1=len(ops1), op2=op2)
+
     # --- seeded random cases over all ops
     n_rand = 260 if tier == 'quick' else 2600
     binops = ['add', 'sub', 'mul', 'iadd', 'isub', 'imul', 'multiply']
@@ -666,6 +821,8 @@ def value_vectors(ctx, case, idx, tier):
     n = 6 if tier == 'quick' else 12
     if case['tag'] == 'sweep':
         n = 2 if tier == 'quick' else 4
+    if case['tag'] == 'chain':
+        n = 3 if tier == 'quick' else 6
     vecs = []
     for k in range(n):
         vec = []
@@ -673,6 +830,8 @@ def value_vectors(ctx, case, idx, tier):
             bb = capb(b, mb)
             top = (1 << bb) - 1
             style = rng.choice(['rand', 'rand', 'bound', 'max', 'ties'])
+            if case['tag'] == 'chain' and k == 0:
+                style = 'max'
             m = []
             for _ in range(r * c):
                 if style == 'max':
@@ -692,11 +851,18 @@ def value_vectors(ctx, case, idx, tier):
 
 
 # ----------------------------------------------------------------------------- the run
-def case_json(case):
-    g = dict(case['args'])
+def args_json(g):
+    g = dict(g)
     if 'key' in g:
         k = g['key']
         g['key'] = [key_json(x) for x in k] if isinstance(k, tuple) else key_json(k)
+    if 'op1' in g:
+        g['op1'] = {'op': g['op1']['op'], 'args': args_json(g['op1']['args'])}
+    return g
+
+
+def case_json(case):
+    g = args_json(case['args'])
     return {'op': case['op'], 'operands_rows_cols_bits_maxbits': [list(o) for o in case['ops']], 'args': g}
 
 
@@ -718,7 +884,10 @@ def build_design(batch):
             mats = [M.Matrix(r, c, b, value=w, max_bits=mb) for (r, c, b, mb), w in zip(case['ops'], ins)]
             res = build(case, mats, sc)
             if isinstance(res, M.Matrix):
-                info.update(kind='matrix', rows=res.rows, cols=res.columns, bits=res.bits)
+                info.update(kind='matrix', rows=res.rows, cols=res.columns, bits=res.bits,
+                            max_bits=res.max_bits, signed=res.signed,
+                            shape_ok=(len(res._matrix) == res.rows and
+                                      all(len(row) == res.columns for row in res._matrix)))
                 wire = res.to_wirevector()
                 if len(wire) != res.rows * res.columns * res.bits:
                     info['lenbad'] = len(wire)
@@ -854,6 +1023,30 @@ def judge(ctx, idx, case, vecs, info, outs, model):
             ctx.count('arg_' + name, '%s=%s' % (name, case['args'][name]))
     decl, mb = declared_bits(case)
     reported = set()
+    if info['kind'] == 'matrix':
+        # attributes of the result object (they decide what LATER operations on it do)
+        want_mb = None
+        try:
+            want_mb = spec_max_bits(case)
+        except SpecError:
+            pass
+        bad = []
+        if want_mb is not None and info['max_bits'] != want_mb:
+            bad.append('max_bits=%r, expected %r' % (info['max_bits'], want_mb))
+        if info['signed'] is not False:
+            bad.append('signed=%r, expected False' % (info['signed'],))
+        if not info['shape_ok']:
+            bad.append('rows/columns attributes do not describe the element table')
+        if bad:
+            seen = ctx.__dict__.setdefault('_c19_reported', {})
+            sig = 'attr:%s' % op
+            if seen.get(sig, 0) < 3:
+                seen[sig] = seen.get(sig, 0) + 1
+                ctx.spec_violation(sig, 'Matrix %s: result attributes wrong: %s (a later + * @ on this result is '
+                                   'capped by max_bits)' % (op, '; '.join(bad)),
+                                   dict(cj, seed=ctx.seed, tier=ctx.tier, result_attributes={
+                                       'max_bits': info['max_bits'], 'signed': info['signed'], 'bits': info['bits'],
+                                       'rows': info['rows'], 'columns': info['cols']}, expected_max_bits=want_mb))
     for t, vec in enumerate(vecs):
         ms, scalar = split_vec(case, vec)
         rep = dict(cj, seed=ctx.seed, tier=ctx.tier, operand_values=ms, scalar=scalar, wire_inputs=list(vec))
@@ -922,12 +1115,15 @@ def judge(ctx, idx, case, vecs, info, outs, model):
             if info['kind'] != 'error':
                 ctx.model_mismatch('model says %s raises, implementation returned %s' % (op, impl), rep)
         else:
-            mbits, mdat, mwv = mres
+            mbits, mdat, mwv, mmaxb = mres
             if info['kind'] == 'error':
                 ctx.model_mismatch('implementation raises (%s), model returns %s' % (info['err'], mdat), rep)
             elif (mbits, mdat, mwv) != (info['bits'], impl, outs[t]):
                 ctx.model_mismatch('Matrix %s: implementation (bits=%d, %s, wire=%d) != model (bits=%d, %s, wire=%d)' % (
                     op, info['bits'], impl, outs[t], mbits, mdat, mwv), rep)
+            elif info['kind'] == 'matrix' and mmaxb != info['max_bits']:
+                ctx.model_mismatch('Matrix %s: implementation max_bits=%r != model maxb=%r' % (
+                    op, info['max_bits'], mmaxb), rep)
 
 
 def pure_function_ties(ctx):
@@ -986,8 +1182,8 @@ def pure_function_ties(ctx):
                 ctx.model_mismatch('list_to_int: implementation %d != model %s' % (got, model[k]), rep)
 
 
-def case_from_json(rep):
-    g = dict(rep['args'])
+def args_from_json(g):
+    g = dict(g)
 
     def unkey(k):
         if isinstance(k, list) and k and k[0] == 'slice':
@@ -999,8 +1195,14 @@ def case_from_json(rep):
             g['key'] = tuple(unkey(x) for x in k)
         else:
             g['key'] = unkey(k)
-    return {'op': rep['op'], 'ops': [tuple(o) for o in rep['operands_rows_cols_bits_maxbits']], 'args': g,
-            'tag': 'replay', 'exhaustive': False}
+    if 'op1' in g:
+        g['op1'] = {'op': g['op1']['op'], 'args': args_from_json(g['op1']['args'])}
+    return g
+
+
+def case_from_json(rep):
+    return {'op': rep['op'], 'ops': [tuple(o) for o in rep['operands_rows_cols_bits_maxbits']],
+            'args': args_from_json(rep['args']), 'tag': 'replay', 'exhaustive': False}
 
 
 def replay(ctx, data):
